@@ -127,15 +127,19 @@ CLAIMED = {
              "the body is inside one lock (harness/gen_alloc.py -> Gen/Alloc.v; C06_allocator_as_translated). For ANY number of threads and ANY schedule with fewer than 2^32 "
              "allocations, two threads that obtained system bytes hold different ones (C06_system_bytes_distinct: invariant over all schedules + injectivity of next^i modulo "
              "2^32); the same operations without the lock admit a schedule where two threads get the same value (C06_unlocked_race). A waiting requester receives exactly the "
-             "first arrival with its system bytes for every arrival sequence (C06_reply_to_requester) and all other messages reach the application exactly once in arrival "
-             "order (C06_others_in_order). The hand-over to the dispatcher thread, with the loop shape harness/gen_dispatcher.py reads off the source (trigger cleared before the "
+             "first arrival without W-bit that carries its system bytes, for every arrival sequence (C06_reply_to_requester), and all other messages - primaries of the peer with "
+             "the same system bytes included (D49) - reach the application exactly once in arrival order (C06_others_in_order). The hand-over to the dispatcher thread, with the loop shape harness/gen_dispatcher.py reads off the source (trigger cleared before the "
              "queue is drained): under every interleaving of queueing (put, set) and dispatcher steps no block is left queued with the dispatcher asleep and nobody about to wake "
              "it, and blocks are conserved (C06_dispatcher_no_lost_wakeup, C06_dispatcher_conserves_blocks; clearing after the drain strands a block: C06_clear_after_drain_strands). "
+             "Across stop()/start(): a new dispatcher thread joins the thread that is inside a callback (read off the source by gen_dispatcher), so for every order of restarts, "
+             "dispatcher steps and returns never two callbacks run at a time (C06_one_callback_at_a_time; without the wait they do: C06_no_wait_overlaps); what is still queued when "
+             "the link is lost is discarded (C06_stop_discards_queued_refuted, known finding C06-queued-at-link-loss). "
              "The implementation is searched for failing schedules (every single preemption point at bytecode granularity), driven with concurrent requesters, bursts, reconnects "
-             "(also in the middle of a message), a block forced to arrive exactly at the dispatcher's empty check, and a data message carrying the system bytes of an unanswered linktest.",
+             "(also in the middle of a message), a block forced to arrive exactly at the dispatcher's empty check, data messages carrying the system bytes of an unanswered linktest / of a request that timed out, "
+             "primaries of the peer that carry the system bytes of outstanding requests, and a handler that calls disable(), enable() and keeps running.",
         note=NOTE_COMMON + " Partial on 'interleavings': a locked body is ONE atomic step of the model (threading.Lock's mutual exclusion and the atomicity of a single attribute "
-             "load/store under the GIL are trusted); 'one at a time' for application callbacks rests on there being one dispatcher thread, which is observed (thread count, "
-             "overlap of callbacks) and not proven; timers are outside.",
+             "load/store under the GIL are trusted); 'one at a time' within one connection rests on there being one dispatcher thread per generation (observed: thread count, "
+             "overlap of callbacks), across connections on the generations model (an abstraction written by hand, tied by two translator flags and the forced scenario); timers are outside.",
         technique="Rocq proof (invariant over all schedules of an interleaving model, arithmetic modulo 2^32, list induction for routing) + Python-ast translator + schedule search on the implementation + in-Coq differential correspondence",
         design="5/C06",
     ),
@@ -198,7 +202,7 @@ CLAIMED = {
              "delivered exactly once with identical header and data, ACK (C17_valid_block_received, from the unbounded block round trip); one changed byte anywhere behind the "
              "length byte: EOT, NAK, nothing delivered (C17_corrupted_block_refused, from C16's corruption theorem); sender and receiver together, a message of any number of "
              "blocks: ENQ/EOT/block/ACK per block, all delivered once in order, the call succeeds (C17_dialog_delivers); the sending side succeeds exactly when every block is "
-             "acknowledged (C17_sender, C17_sender_nak_fails); a changed LENGTH byte is not answered with NAK (C17_length_byte_refuted, known finding C17-length-byte: the receiver waits, "
+             "acknowledged (C17_sender, C17_sender_nak_fails) and starts a block only after EOT, whatever else the peer answers to ENQ (C17_block_only_after_eot, C17_block_follows_eot; D50); a changed LENGTH byte is not answered with NAK (C17_length_byte_refuted, known finding C17-length-byte: the receiver waits, "
              "the library has no timers). The harness also plays a failed attempt followed by the sender's next attempt with the same system bytes (D33).",
         note=NOTE_COMMON + " Partial: contention (both sides sending ENQ), the T1-T4 timers the library does not implement and the serial driver are outside; wait_for is modelled as "
              "accumulation of bytes; what the receiver makes of the bytes left behind a block whose length byte was lowered depends on when it is triggered again (compared with the "
@@ -236,7 +240,8 @@ CLAIMED = {
              "order, all for an empty request, empty item for unknown ids; S5F1 exactly on set/clear changes of enabled alarms); S2F15 is all-or-nothing "
              "(C13_s2f15_all_or_nothing), answers EAC 0 exactly when every id is known and every value is within its range, NaN excluded "
              "(C13_s2f15_accepts_iff_valid: the 'last error wins' loop as written against E5's condition), and after any history no constant is outside its declared "
-             "min/max (C13_ec_in_range, invariant over all histories). Tied to the code by driving a real equipment handler and comparing replies and tables.",
+             "min/max (C13_ec_in_range, invariant over all histories); S5F5 is never aborted and has one row per requested ALID, zero-length ALCD/ALTX for an alarm that does not "
+             "exist (C13_s5f5_lists_requested, D48); the AlarmsEnabled / AlarmsSet status variables list exactly the alarms enabled / set (C13_alarm_status_variables). Tied to the code by driving a real equipment handler and comparing replies and tables.",
         note=NOTE_COMMON + " Outside the modelled domain: values of a type other than the constant's (accepted by the library and fatal for later S2F13 - noted in DESIGN.md), "
              "the predefined SVIDs 1001-1005 / ECIDs 1-2 with their special cases, unknown ALIDs in S5F5 (the library aborts). The model is hand-written.",
         technique="Rocq proof (refinement of an E5 reference + invariant over histories, unbounded ids/values) + in-Coq differential correspondence on a real handler",
